@@ -112,6 +112,15 @@ CLAIMS = {
          "<= 3 (4) with adversarial call sequences on the real crate, with the probe and with the closure idiom, judges the implementation's "
          "trace with the grammar predicate and compares it with the model's execution of the same tree. Scheduler-using operators are not "
          "nodes of these trees (their traces are judged under C02 / C07-C09).", "DESIGN.md section 5 C01"),
+ "C13": ("Theorems: C13_no_shared_cell_in_pipeline_values (a table of every struct of /repo/src that implements Observable, with its field "
+         "types, regenerated on every run: none but subjects / share / complete_status carries Rc, Arc, RefCell, Cell, Mutex or an atomic), "
+         "C13_subscription_is_pure, C13_successive_subscriptions_agree, C13_nested_subscriptions_agree (with every operator's state created "
+         "per subscription - a model with an explicit heap of cells reachable from the pipeline value - any number of successive subscriptions "
+         "of clones, and a subscription made from inside a callback of another, yield the pure run and leave the heap untouched), "
+         "C13_shared_state_would_break_it (the hypothesis is necessary). Each run builds pipelines over counting sources (of_fn, start, defer, "
+         "create, from_iter), reads the counters before any subscription (laziness) and after 2-3 successive or nested subscriptions of clones, "
+         "and compares every subscription's trace with the model. PARTIAL: futures are not exercised; laziness is decided by the counters "
+         "(correspondence), not by a theorem.", "DESIGN.md section 5 C13"),
  "C16": ("Theorems: C16_source_agrees_single / _double and C16_no_constant_answers (the model's back channel equals a table regenerated on "
          "every run from every `fn is_finished` body of /repo/src; no observer but the final subscriber answers a constant), "
          "C16_every_observer_forwards, C16_cut_reaches_producer (an early end anywhere in any chain of single-input operators, or behind either "
